@@ -637,7 +637,20 @@ func init() {
 				})
 			}
 		}
-		return []OblResult{structResult("C17.globals", "package-level variables of the emitted server and client are written only inside the function passed to sync.Once.Do and the validator singleton is read only after that call; every other package-level variable is never written after initialisation", uniq(probs))}
+		// no package-level object that is mutated through method calls: pools, sync.Map, atomics, channels and the like
+		// are shared by all requests of the process (sync.Once, guarding the validator singleton, is the one exception)
+		for _, pkg := range []*types.Package{w.Emitted.Types, w.EmittedClient.Types} {
+			for _, name := range pkg.Scope().Names() {
+				v, ok := pkg.Scope().Lookup(name).(*types.Var)
+				if !ok || strings.HasPrefix(name, "file_") || strings.HasPrefix(name, "File_") {
+					continue
+				}
+				if why := sharedMutableType(v.Type(), 0); why != "" {
+					probs = append(probs, fmt.Sprintf("package-level variable %s has type %s (%s): state shared by every request of the process", name, v.Type(), why))
+				}
+			}
+		}
+		return []OblResult{structResult("C17.globals", "package-level variables of the emitted server and client are written only inside the function passed to sync.Once.Do and the validator singleton is read only after that call; every other package-level variable is never written after initialisation, and none is a pool, concurrent map, atomic or channel", uniq(probs))}
 	}
 	structuralRules["emitted.c17.clientframe"] = func(w *World) []OblResult {
 		var probs []string
@@ -1269,4 +1282,43 @@ func init() {
 		}
 		return []OblResult{structResult("C15.unwrap_table.writers", fmt.Sprintf("all %d insertions into unwrap tables store annotations.GetUnwrapField(m) under m's full name (the table is a cache of the definitions)", sites), probs)}
 	}
+}
+
+
+// sharedMutableType: the type is (or contains) a synchronisation object other than sync.Once / sync.Mutex-guarded plain
+// data, i.e. something whose whole point is to be mutated by concurrent users.
+func sharedMutableType(t types.Type, depth int) string {
+	if depth > 4 {
+		return ""
+	}
+	switch u := t.(type) {
+	case *types.Named:
+		if o := u.Obj(); o.Pkg() != nil {
+			switch o.Pkg().Path() {
+			case "sync":
+				if o.Name() != "Once" {
+					return "sync." + o.Name()
+				}
+				return ""
+			case "sync/atomic":
+				return "atomic." + o.Name()
+			}
+		}
+		return sharedMutableType(u.Underlying(), depth+1)
+	case *types.Pointer:
+		return sharedMutableType(u.Elem(), depth+1)
+	case *types.Chan:
+		return "channel"
+	case *types.Struct:
+		for i := 0; i < u.NumFields(); i++ {
+			if why := sharedMutableType(u.Field(i).Type(), depth+1); why != "" {
+				return why
+			}
+		}
+	case *types.Slice:
+		return sharedMutableType(u.Elem(), depth+1)
+	case *types.Array:
+		return sharedMutableType(u.Elem(), depth+1)
+	}
+	return ""
 }
